@@ -5,13 +5,13 @@ package hsrv
 
 import (
 	"context"
+	"io"
 	"io/fs"
 	"log"
 	"net"
 	"net/http"
 	"os"
 	"time"
-	"io"
 )
 
 //verif:stub net/http.NewServeMux stubNewServeMux
@@ -57,9 +57,14 @@ func stubLogNew(w io.Writer, prefix string, flag int) *log.Logger { return &log.
 
 type stubFI struct{ dir bool }
 
-func (f stubFI) Name() string       { return "x" }
-func (f stubFI) Size() int64        { return 1 }
-func (f stubFI) Mode() fs.FileMode  { if f.dir { return fs.ModeDir | 0o755 }; return 0o644 }
+func (f stubFI) Name() string { return "x" }
+func (f stubFI) Size() int64  { return 1 }
+func (f stubFI) Mode() fs.FileMode {
+	if f.dir {
+		return fs.ModeDir | 0o755
+	}
+	return 0o644
+}
 func (f stubFI) ModTime() time.Time { return time.Time{} }
 func (f stubFI) IsDir() bool        { return f.dir }
 func (f stubFI) Sys() any           { return nil }
@@ -85,10 +90,10 @@ func stubFileServer(root http.FileSystem) http.Handler {
 }
 
 type stubListener struct {
-	closes   int
+	closes     int
 	ochAtClose int
-	och      chan interface{}
-	lenAt    func() int
+	och        chan interface{}
+	lenAt      func() int
 }
 
 func (l *stubListener) Accept() (net.Conn, error) { return nil, net.ErrClosed }
